@@ -123,6 +123,10 @@ class AddrMap(object):
         if params[0] in self.addr:
             self.addr[params[0]].update(*params)
 
+        elif params[1] == '<error>':
+            # an error for a name we know nothing about: nothing to drop
+            return
+
         else:
             a = Addr(self)
             # add both name and IP address
